@@ -20,7 +20,9 @@ PID = "C12"
 P53 = 1 << 53
 
 
-def find_injection_kernels(fns, src="/repo/src/data_type/injection.rs"):
+def find_injection_kernels(fns, src=None):
+    import paths
+    src = src or (paths.REPO + "/src/data_type/injection.rs")
     lines = open(src).read().split("\n")
     out = {}
     for name in fns:
